@@ -97,7 +97,8 @@ func (n *RangeLiteralNode) Equal(other value.Value) bool {
 func (n *RangeLiteralNode) String() string {
 	var buff strings.Builder
 
-	leftParen := ExpressionPrecedence(n) > ExpressionPrecedence(n.Start)
+	// ranges do not associate: a range operand needs parentheses on either side
+	leftParen := ExpressionPrecedence(n) >= ExpressionPrecedence(n.Start)
 	rightParen := ExpressionPrecedence(n) >= ExpressionPrecedence(n.End)
 
 	// beginless (`...5`) and endless (`5...`) ranges have no Start / End
